@@ -6,10 +6,10 @@
 #                 4: list<i32> nums, 5: map<string,string> kv }
 #   exception VerifError { 1: string why, 2: i32 code }
 #   exception OtherError { 1: string detail, 2: i64 n }
-#   exception ThirdError { 1: string tag }
+#   exception ThirdError { 1: string tag }      // emitted the way compilers from 0.14 on do: immutable
 #
 from thrift.Thrift import TType, TException
-from thrift.protocol.TBase import TBase, TExceptionBase
+from thrift.protocol.TBase import TBase, TExceptionBase, TFrozenExceptionBase
 from thrift.TRecursive import fix_spec
 
 all_structs = []
@@ -87,11 +87,17 @@ OtherError.thrift_spec = (
 )
 
 
-class ThirdError(TExceptionBase):
+class ThirdError(TFrozenExceptionBase):
     __slots__ = ('tag',)
 
     def __init__(self, tag=None):
-        self.tag = tag
+        super(ThirdError, self).__setattr__('tag', tag)
+
+    def __setattr__(self, *args):
+        raise TypeError("can't modify immutable instance")
+
+    def __delattr__(self, *args):
+        raise TypeError("can't modify immutable instance")
 
     def __str__(self):
         return repr(self)
